@@ -28,24 +28,34 @@ Definition same_b (c : c15case) : bool :=
            (map2 ren_out (c_ren c) (map tc_out (c_types (ca c))))
            (map tc_out (c_types (cb c))).
 
-(* a copy of / strictly monotone function of the target is returned, unless n_best returned
-   features of its type are at least as associated with the target (exact tie at the top) *)
+(* a copy of / strictly monotone function of the target is returned, unless it fails thresh_nan /
+   thresh_mode, or n_best returned features of its type are at least as associated with the
+   target (exact tie at the top), or it is too associated with such a returned feature *)
 Definition must_ok (tc : tcase) (i : nat) : bool :=
   let t := tc_in tc in
   let out := tc_out tc in
   let j := (List.length (t_ms t) - 1)%nat in
   memn i out ||
-  match spec_at t i j with
-  | Some s => Nat.leb (t_nbest t)
-                (List.length (filter (fun g => match spec_at t g j with Some sg => s <=? sg | None => false end) out))
-  | None => false
+  match t_ms t, feat_of t i with
+  | [], _ => true                                   (* no measure requested for this dtype *)
+  | _, None => false
+  | _, Some f =>
+      negb (base_ok (t_n t) (t_tnan t) (t_tmode t) f)   (* fails thresh_nan / thresh_mode *)
+      || match nth j (f_spec f) None with
+         | Some s =>
+             let better := filter (fun g => match spec_at t g j with Some sg => s <=? sg | None => false end) out in
+             Nat.leb (t_nbest t) (List.length better)
+             || existsb (fun fl => existsb (fun g => fl_thresh fl <=? fst (assoc_at fl i g)) better) (t_filters t)
+         | None => false
+         end
   end.
 
 Definition musts_ok (c : c15case) : bool :=
   forallb (fun p => forallb (must_ok (fst p)) (snd p)) (combine (c_types (ca c)) (c_must c)).
 
 Definition ties15 (c : c15case) : bool :=
-  existsb (fun tc => has_ties (tc_in tc)) (c_types (ca c)) || existsb (fun tc => has_ties (tc_in tc)) (c_types (cb c)).
+  existsb (fun tc => has_ties (tc_in tc) || has_boundary (tc_in tc)) (c_types (ca c))
+  || existsb (fun tc => has_ties (tc_in tc) || has_boundary (tc_in tc)) (c_types (cb c)).
 
 Definition C15_b (c : c15case) : bool := (same_b c || ties15 c) && musts_ok c.
 
